@@ -14,7 +14,21 @@ for L, th in [(1, False), (4, False), (8, False)]:
     HARNESSES.append({"name": "pool%d" % L, "fn": N + "VerifC11Pool%d" % L, "thorough_only": th, "bounds": "pool level %d" % L})
 for n, th in [(1, False), (2, False), (7, False), (8, False)]:
     HARNESSES.append({"name": "reply%d" % n, "fn": N + "VerifC11Reply%d" % n, "thorough_only": th, "bounds": "reply with %d fresh cookies" % n})
-ASSUMPTIONS = ["ideal AEAD", "the server branch that builds the reply (runIPServer) is represented by the same calls it makes: EncryptWithNonce/Encode per requested cookie, NewResponsePacket, EncodePacket"]
+import importlib.util as _ilu
+_sp = _ilu.spec_from_file_location("c09prop_for_c11", os.path.join(os.path.dirname(os.path.abspath(__file__)), "c09.py"))
+_c09 = _ilu.module_from_spec(_sp)
+_sp.loader.exec_module(_c09)
+PATTERNS += ["./core/server"]
+HARNESS_FILES += ["core/server/zz_verif_c06.go", "core/server/zz_verif_c09.go", "core/server/zz_verif_c09_metrics.go", "core/server/zz_verif_c11srv.go"]
+EXEC_PKGS = _c09.EXEC_PKGS
+EXTRA_ENTRIES = _c09.EXTRA_ENTRIES
+S = "example.com/scion-time/core/server."
+SRVCFG = dict(_c09.LISTENER_CFG, rand_distinct=True, time_mode="ns64", aead_bound=1100, copy_bound=160)
+for nph, th in [(0, False), (2, False)]:
+    HARNESSES.append({"name": "server%d" % nph, "fn": S + "VerifC11Server%d" % nph, "cfg": SRVCFG, "install": _c09.LISTENER_INSTALL, "replay_overlay": _c09.RO, "synctest_off": True,
+                      "native_feasible": _c09.native_feasible, "thorough_only": th,
+                      "bounds": "the real IP listener answering one authenticated request with 1 cookie and %d placeholders (124-byte cookies from the real server code)" % nph})
+ASSUMPTIONS = ["independently drawn nonces do not collide (assumed for the pairwise-different clause)", "ideal AEAD", "the server branch that builds the reply (runIPServer) is represented by the same calls it makes: EncryptWithNonce/Encode per requested cookie, NewResponsePacket, EncodePacket"]
 EXPLANATION = ""
 CLAIMED = True
 LEVEL_TEXT = "Bounded model checking / symbolic execution of the real client and server packet-building code at every explored pool level (1, 2, 3, 8; thorough 5) with cookies produced by the real server-side cookie code (124 bytes): one cookie field = first pooled cookie, 8-L fields typed as placeholders, encoded size vs. MaxPacketLen, pool arithmetic (pop on fetch, append on store, loss-free = 8), reply with n fresh cookies authenticates and is stored."
